@@ -16,9 +16,9 @@ import (
 
 func init() { jobs = append(jobs, job{props: []string{"C07"}, fn: genAcctMod}) }
 
-// modDir resolves the directory of a third-party module at the version pinned
+// acctmodModDir resolves the directory of a third-party module at the version pinned
 // in /repo/go.mod inside the module cache.
-func modDir(mod string) string {
+func acctmodModDir(mod string) string {
 	b, err := os.ReadFile(filepath.Join(repo, "go.mod"))
 	if err != nil {
 		fail("read go.mod: %v", err)
@@ -38,8 +38,8 @@ func modDir(mod string) string {
 	return filepath.Join(cache, mod+"@"+string(m[1]))
 }
 
-// absFiles parses the given absolute file paths.
-func absFiles(paths ...string) []*ast.File {
+// acctmodAbsFiles parses the given absolute file paths.
+func acctmodAbsFiles(paths ...string) []*ast.File {
 	var files []*ast.File
 	for _, p := range paths {
 		f, err := parser.ParseFile(fset, p, nil, 0)
@@ -54,7 +54,7 @@ func absFiles(paths ...string) []*ast.File {
 
 // switchTable extracts `case A, B: <body>` clauses of the first switch in fd
 // whose tag prints as tag; body statements are handed to f.
-func switchClauses(fd *ast.FuncDecl, tag string) []*ast.CaseClause {
+func acctmodSwitchClauses(fd *ast.FuncDecl, tag string) []*ast.CaseClause {
 	var res []*ast.CaseClause
 	if fd == nil {
 		return nil
@@ -72,8 +72,8 @@ func switchClauses(fd *ast.FuncDecl, tag string) []*ast.CaseClause {
 	return res
 }
 
-// estimatorCalls lists the `weightEstimator.AddXxx()` methods called in stmts.
-func estimatorCalls(stmts []ast.Stmt) []string {
+// acctmodEstimatorCalls lists the `weightEstimator.AddXxx()` methods called in stmts.
+func acctmodEstimatorCalls(stmts []ast.Stmt) []string {
 	var res []string
 	for _, st := range stmts {
 		ast.Inspect(st, func(n ast.Node) bool {
@@ -100,14 +100,14 @@ func genAcctMod() {
 	ace := newConstEnv(acct)
 	ps := newConstEnv(pkgFiles("poolscript"))
 
-	lnd := modDir("github.com/lightningnetwork/lnd")
+	lnd := acctmodModDir("github.com/lightningnetwork/lnd")
 	if lnd == "" {
 		return
 	}
 	externConsts["blockchain.WitnessScaleFactor"] = 4
-	sizeFiles := absFiles(filepath.Join(lnd, "input", "size.go"))
+	sizeFiles := acctmodAbsFiles(filepath.Join(lnd, "input", "size.go"))
 	ice := newConstEnv(sizeFiles)
-	fce := newConstEnv(absFiles(filepath.Join(lnd, "lnwallet", "chainfee", "rates.go")))
+	fce := newConstEnv(acctmodAbsFiles(filepath.Join(lnd, "lnwallet", "chainfee", "rates.go")))
 
 	l := newLean("AcctModFacts", "Constants, witness-size table and output-type switch tables of "+
 		"account/manager.go, account/interfaces.go, poolscript/script.go and lnd input/size.go, chainfee/rates.go.")
@@ -138,7 +138,7 @@ func genAcctMod() {
 
 	// witnessType.witnessSize switch: witness type value -> size.
 	var rows []string
-	for _, cc := range switchClauses(findFunc(acct, "witnessType.witnessSize"), "wt") {
+	for _, cc := range acctmodSwitchClauses(findFunc(acct, "witnessType.witnessSize"), "wt") {
 		if cc.List == nil {
 			continue
 		}
@@ -170,7 +170,7 @@ func genAcctMod() {
 
 	// witnessType.IsExpirySpend: the witness types taking the expiry path.
 	rows = nil
-	for _, cc := range switchClauses(findFunc(acct, "witnessType.IsExpirySpend"), "wt") {
+	for _, cc := range acctmodSwitchClauses(findFunc(acct, "witnessType.IsExpirySpend"), "wt") {
 		if cc.List == nil || len(cc.Body) != 1 {
 			continue
 		}
@@ -204,11 +204,11 @@ func genAcctMod() {
 
 	// valueAfterAccountUpdate: output script class -> output size added.
 	rows = nil
-	for _, cc := range switchClauses(findFunc(acct, "valueAfterAccountUpdate"), "pkScript.Class()") {
+	for _, cc := range acctmodSwitchClauses(findFunc(acct, "valueAfterAccountUpdate"), "pkScript.Class()") {
 		if cc.List == nil {
 			continue
 		}
-		calls := estimatorCalls(cc.Body)
+		calls := acctmodEstimatorCalls(cc.Body)
 		if len(calls) != 1 {
 			fail("valueAfterAccountUpdate: case without exactly one estimator call")
 			continue
@@ -227,11 +227,11 @@ func genAcctMod() {
 
 	// OutputWithFee.CloseOutputs: class -> (output size added, dust script size).
 	rows = nil
-	for _, cc := range switchClauses(findFunc(acct, "OutputWithFee.CloseOutputs"), "pkScript.Class()") {
+	for _, cc := range acctmodSwitchClauses(findFunc(acct, "OutputWithFee.CloseOutputs"), "pkScript.Class()") {
 		if cc.List == nil {
 			continue
 		}
-		calls := estimatorCalls(cc.Body)
+		calls := acctmodEstimatorCalls(cc.Body)
 		dust := ""
 		for _, st := range cc.Body {
 			ast.Inspect(st, func(n ast.Node) bool {
@@ -400,7 +400,7 @@ func genAcctMod() {
 	// spendAccount: lock time per witness type (`lockTime = X` in each case).
 	sp := findFunc(acct, "manager.spendAccount")
 	var lrows []string
-	for _, cc := range switchClauses(sp, "witnessType") {
+	for _, cc := range acctmodSwitchClauses(sp, "witnessType") {
 		if cc.List == nil {
 			continue
 		}
